@@ -135,18 +135,18 @@ def run(ctx):
     gl = 14
     gc = {"MaxSegW": 5, "MaxQW": 14, "Words": {1, 2, 5}, "SegSizes": {3, 5}, "MaxBlocks": 8, "BufT": 2, "MaxTok": 2,
           "Apps": ["a1"], "Dev": ['"ackBeforeDurable"'], "MaxSegId": 99, "MaxSent": 99, "GenLen": gl}
-    num = ctx.pick(200, 3000)
+    num = ctx.pick(200, 800)
     if ctx.replay:
         rp = json.load(open(ctx.replay))["replay"]
         inp = {"consts": rp.get("consts"), "behaviours": [rp.get("behaviour")]}
     else:
         ctx.write_cfg(sd, "GenQ.cfg", "GSpecQ", gc, extra="INVARIANT Emit")
-        behs = ctx.tlc_generate(sd, "HHQueueGen", "GenQ.cfg", num=num, depth=gl + 1)[:num * 3]
+        behs = ctx.tlc_generate(sd, "HHQueueGen", "GenQ.cfg", num=num, depth=gl + 1)[:num * ctx.pick(3, 1)]
         inp = {"consts": {k: v for k, v in gc.items() if isinstance(v, int)}, "behaviours": behs}
         # rollover-heavy behaviours: one block per segment, more than ten segments, close/reopen in between
         gr = dict(gc, MaxSegW=3, MaxQW=200, Words={1, 2}, SegSizes={3}, MaxBlocks=14, GenLen=22)
         ctx.write_cfg(sd, "GenR.cfg", "GSpecQ", gr, extra="INVARIANT Emit")
-        nr = ctx.pick(40, 400)
+        nr = ctx.pick(40, 150)
         behs_r = ctx.tlc_generate(sd, "HHQueueGen", "GenR.cfg", num=nr, depth=23)[:nr]
         inp_r = {"consts": {k: v for k, v in gr.items() if isinstance(v, int)}, "behaviours": behs_r}
     def run_q(inp, label):
